@@ -245,6 +245,7 @@ pub struct Injected;
 thread_local! {
     static WINDOW: Cell<bool> = const { Cell::new(false) };
     static FUSE: Cell<i64> = const { Cell::new(-1) };
+    static REARM: Cell<i64> = const { Cell::new(0) };
     static TICKS: Cell<u64> = const { Cell::new(0) };
     static FIRED: Cell<Option<Cb>> = const { Cell::new(None) };
     static LAST_ALLOC: Cell<u64> = const { Cell::new(0) };
@@ -327,8 +328,15 @@ fn liar_eq(a: u8, b: u8) -> bool {
 
 pub fn fuse_arm(at: i64) {
     FUSE.with(|f| f.set(at));
+    REARM.with(|f| f.set(0));
     TICKS.with(|t| t.set(0));
     FIRED.with(|f| f.set(None));
+}
+/// Arm the fuse at callback `at` and, once it has fired, once more `gap` callbacks later
+/// (gap 0 = single fault): the survivor of one panic is hit by a second one.
+pub fn fuse_arm2(at: i64, gap: u8) {
+    fuse_arm(at);
+    REARM.with(|f| f.set(gap as i64));
 }
 pub fn fuse_disarm() {
     FUSE.with(|f| f.set(-1));
@@ -352,7 +360,8 @@ pub fn tick(kind: Cb) {
         v
     });
     if FUSE.with(|f| f.get()) == t as i64 && !std::thread::panicking() {
-        FUSE.with(|f| f.set(-1));
+        let gap = REARM.with(|f| f.replace(0));
+        FUSE.with(|f| f.set(if gap > 0 { t as i64 + gap } else { -1 }));
         FIRED.with(|f| f.set(Some(kind)));
         std::panic::panic_any(Injected);
     }
